@@ -61,7 +61,7 @@ BUDGET_S = {"quick": 240, "thorough": 3000}
 # --------------------------------------------------------------------------------------------------
 
 STRINGS = [("s", "a"), ("s", "a.b"), ("s", "a.b.c")]
-CLASSES = [("c", "int"), ("c", "str")]
+CLASSES = [("c", "int"), ("c", "sized")]
 CALLS = [("f", "t_ctx"), ("f", "t_num"), ("f", "r_len"), ("f", "r_div"), ("f", "r_always")]
 FULL_LEAVES = STRINGS + CLASSES + CALLS
 SMALL_LEAVES = [("s", "a.b"), ("c", "int"), ("f", "t_num"), ("f", "r_len")]
@@ -631,8 +631,15 @@ def check_gb_forms(res, g, m, contexts):
 def check_gb_flow(res, g, m, contexts, order="sorted", count=True, name="family"):
     """One GroupBy filled with the whole family twice (second pass reversed, keys re-ordered) and
     three values without a context."""
-    gg = tuple(g) if order == "sorted" else tuple(reversed(g))
-    mm = tuple(m) if order == "sorted" else tuple(reversed(m))
+    if order == "interleaved":
+        # keys with a common first component are not neighbours in the listing (ordered by their last
+        # component): the order in which keys are listed means nothing
+        def ilv(keys):
+            return tuple(sorted(keys, key=lambda k: (k.split(".")[-1], -len(k), k)))
+        gg, mm = ilv(g), ilv(m)
+    else:
+        gg = tuple(g) if order == "sorted" else tuple(reversed(g))
+        mm = tuple(m) if order == "sorted" else tuple(reversed(m))
     case = {"law": "groupby-flow", "group_by": list(gg), "merge": list(mm), "contexts": contexts,
             "order": order}
     flow = []
@@ -753,7 +760,7 @@ def describe(tier):
             "(4 data x 8 contexts); SelectContext: 7 keys x 4 predicates x %d values, alone and inside "
             "one-level composites; own raise_on_error per sub-selector to depth 2%s; Filter over all "
             "depth<=1 specifications x 2 flows x run/fill_into; GroupBy: all %d assignments of %s to "
-            "group_by / merge / unlisted, %d contexts, all ordered pairs + whole-family flows in two "
+            "group_by / merge / unlisted, %d contexts, all ordered pairs + whole-family flows in three "
             "listing orders"
             % (" (thorough: also 3 items over the 50 depth<=1 specifications of the 4-leaf alphabet)"
                if d["extras"] else "", d["deep_name"],
@@ -986,7 +993,7 @@ def run_groupby(res, tier, fixed):
         res.count("groupby_assignments_accepted")
         projs = [M.projections(c, g, m) for c in family]
         res.count("groupby_distinct_leaf_projections", len(set(pr[0] for pr in projs)))
-        for order in ("sorted", "reversed"):
+        for order in ("sorted", "reversed", "interleaved"):
             check_gb_flow(res, g, m, family, order=order)
         if len(g) <= 1 and len(m) <= 1:
             check_gb_forms(res, g, m, family[:24])
